@@ -1,64 +1,13 @@
 import Ecal.Model.Eval
 /-!
-C05 additions to the evaluator model (owner: C05; `Model/Eval.lean` is imported, not edited).
-
-* `framesOk` — re-checks on the final state of every program the driver runs that the frames
-  `runFunction` built have the shape `Ecal.Ev.buildFrame` (Model/Eval.lean, called by `runFunction`) is
-  proved to produce: `this` / `super` / the parameters first, linked to the declaration scope.
-* `evalTop` — evaluation of a top-level tree.
+C05 entry point of the evaluator model.  (Objects, call frames and the list builtins live in `Model/Eval.lean`:
+`buildFrame`, `copyProps`, `addSuperClasses`, `newB`, `lenB` … — the functions `runFunction` / `runBuiltin` call.
+An earlier `framesOk` self-check of the model's frames was removed: `runFunction` calls `buildFrame` by definition,
+so it could not fail and said nothing about the Go code.)
 -/
 namespace Ecal.Obj
 open Ecal.Lex Ecal.Ev
 open Ecal.Parse (Node)
-
-/-- one declared parameter: its name and whether it has a default -/
-structure Param where
-  name : List Nat
-  dflt : Option Node
-  deriving Inhabited
-
-/-- the parameters of a function declaration node (`function [identifier] params statements`) -/
-def paramsOf (decl : Node) : List Param :=
-  let off := match decl.children.head? with
-    | some (some c0) => if c0.name == "identifier" then 1 else 0
-    | _ => 0
-  match decl.children[off]? with
-  | some (some ps) =>
-    ps.children.filterMap fun p =>
-      match p with
-      | some p =>
-        if p.name == "identifier" then (p.tok.map fun t => { name := t.val, dflt := none })
-        else if p.name == "preset" then
-          match p.children with
-          | [some n, some d] => n.tok.map fun t => { name := t.val, dflt := some d }
-          | _ => none
-        else none
-      | none => none
-  | _ => []
-
-/-- the context variables of a bound function: `this`, then `super` (only those that are present) -/
-def contextVars (this super : Option Val) : List (List Nat × Val) :=
-  (match this with | some t => [(thisName, t)] | none => []) ++
-  (match super with | some s => [(superName, s)] | none => [])
-
-def dedup (l : List String) : List String :=
-  l.foldl (fun acc x => if acc.contains x then acc else acc ++ [x]) []
-
-/-- every function frame of the state was built the way `Ecal.Ev.buildFrame` builds it: it hangs under the
-    declaration scope of a function of that name (or is still unlinked: a default raised an error) and
-    its first variables are `this` / `super` (for a bound function) and that function's parameters, in
-    order -/
-def framesOk (st : St) : Bool :=
-  st.scopes.all fun s =>
-    if s.name.startsWith "func: " then
-      st.funcs.any fun fr =>
-        s.name == s!"func: {fr.name}" &&
-        (s.parent == none || s.parent == some fr.declScope) &&
-        (let ps := dedup (((contextVars fr.this fr.super).map (·.1) ++ (paramsOf fr.decl).map (·.name)).map
-                     fun n => bytesToString ((splitDots n).headD []))
-         let vs := s.vars.map (·.1)
-         if s.parent == none then vs.isPrefixOf ps || ps.isPrefixOf vs else ps.isPrefixOf vs)
-    else true
 
 /-- evaluation of a top-level tree -/
 def evalTop (fuel g : Nat) (n : Node) : M Val := eval fuel g n
